@@ -19,7 +19,7 @@ HASHABLE_POOL = [v for v in POOL if not isinstance(v, list) and v != ('a', (1,))
 HASHABLE_POOL = [v for v in HASHABLE_POOL if not isinstance(v, list)]
 SCALAR_POOL = [v for v in POOL if not isinstance(v, (list, tuple))]
 # a small pool where collisions dominate, with equal-but-different-type members
-KEY_POOL = [None, 1, 1.0, True, 2, 'a', 'b', b'a', D(2020, 1, 1), (1, 2)]
+KEY_POOL = [None, 1, 1.0, True, 2, 'a', 'b', b'a', D(2020, 1, 1), (1, 2), 0, False, '', ()]      # falsy keys (0, False, '', ()) included
 SMALL_KEYS = [None, 1, 2, 'a', 3]
 TEXT_POOL = ['', 'a', 'b', 'ab', 'B', 'x y', 'é', '1', '2.5', 'None']
 
